@@ -1,0 +1,12 @@
+//! Verification hooks (only compiled with `--cfg passage_verif`).
+use std::sync::atomic::{AtomicU64, Ordering};
+
+/// When non-zero, replaces the wall clock (seconds since the epoch) read by the connection.
+pub static CLOCK_OVERRIDE: AtomicU64 = AtomicU64::new(0);
+
+pub fn clock(real: u64) -> u64 {
+    match CLOCK_OVERRIDE.load(Ordering::SeqCst) {
+        0 => real,
+        v => v,
+    }
+}
